@@ -825,3 +825,23 @@ def c10_l(ctx):
               'the GP is not rebuilt from the stored evidence followed by the new one together '
               'with the current kernel, noise variance and mean function', fn=up,
               node=calls[0] if calls else up.node)
+
+
+@obligation('C10-m', 'T8', 'the prior term of the posterior gradient is the numerical derivative of '
+            'the prior\'s own log density (shared with C08-f)', floor=1,
+            necessary='gradient_logpdf of the posterior adds prior.gradient_logpdf: if that is not '
+                      'the derivative of prior.logpdf the sum is not the derivative of the '
+                      'posterior log density')
+def c10_m(ctx):
+    from .C08 import c08_f
+    c08_f(ctx)
+
+
+@obligation('C10-n', 'T7', 'the prior gradient of row i is computed from row i alone (shared with '
+            'C08-k)', floor=3,
+            necessary='a batch-level test that zeroes all rows when one row is outside the support '
+                      'makes the posterior gradient of a point depend on the other points of '
+                      'the batch')
+def c10_n(ctx):
+    from .C08 import c08_k
+    c08_k(ctx)
